@@ -404,6 +404,7 @@ func c01cRun(c c01cCase, dir string) (res c01cResult) {
 
 	// writing phase: PerSecond marker rows per second, ordinals 1..N; faults are applied by the same loop
 	written := map[int32]uint32{} // ordinal -> second it was written for
+	uncertain := map[int32]bool{} // writes the agent may have dropped by design
 	ord := int32(0)
 	writeEnd := time.Duration(c.WriteSec) * time.Second
 	nextWrite := time.Duration(0)
@@ -418,8 +419,18 @@ func c01cRun(c c01cCase, dir string) (res c01cResult) {
 			now := uint32(time.Now().Unix())
 			for k := 0; k < c.PerSecond; k++ {
 				ord++
+				// The agent silently drops incoming events while its receiving queue has a gap (flusher more than 5 s
+				// behind the clock: gapInReceivingQueueLocked > 0, e.g. under CPU starvation). A write counts as
+				// accepted only if the gap was certainly absent: both fields only grow, so the gap during the call is
+				// at most CurrentTime(after) - SendTime(before) - 5.
+				stBefore := ag.Shards[0].SendTime
 				ag.AddCounter(now, meta, []int32{0, ord}, 1)
+				ctAfter := ag.Shards[0].CurrentTime
 				written[ord] = now
+				if int64(ctAfter)-int64(stBefore)-5 > 0 {
+					uncertain[ord] = true
+					cls["AB:write-while-queue-gap"] = true
+				}
 			}
 			nextWrite += time.Second
 		}
@@ -519,6 +530,7 @@ func c01cRun(c c01cCase, dir string) (res c01cResult) {
 	dups := 0
 	for o := int32(1); o <= ord; o++ {
 		switch n := rows[o]; {
+		case n < 1 && uncertain[o]:
 		case n < 1:
 			missing = append(missing, fmt.Sprintf("#%d(second %d, +%ds)", o, written[o], int64(written[o])-ch.start.Unix()))
 		case n > 1:
